@@ -17,7 +17,8 @@ def handleSplit (toks : List String) : String :=
   | [t] => "|".intercalate ((Split.split cls (decList t)).map encList)
   | _ => "bad-op"
 
-/-- `WH <hasDirname 0/1> <explicitExec 0/1> <env: os|unset|empty|set> <ospath: unset|empty|set> <envdirs> <osdirs> <defdirs>`
+/-- `WH <hasDirname 0/1/2> <explicitExec 0/1> …` (1: a path that no PATH directory can complete - absolute, or through a sub-directory the
+    PATH directories do not have; 2: `./name`, which joined to a PATH directory names that directory's own entry) <env: os|unset|empty|set> <ospath: unset|empty|set> <envdirs> <osdirs> <defdirs>`
     each dirs = comma list of 0/1 (does directory i hold an executable of that name), `-` for none.
     Directory ids: env dirs 100+i, os dirs 200+i, defpath dirs 300+i; explicit = 1 -/
 def parseBits (s : String) : List Bool := (decList s).map (· != 0)
@@ -30,9 +31,9 @@ def handleWhich (toks : List String) : String :=
     let defDirs := parseBits defd
     -- path strings are modelled by a tag character: 'e' env, 'o' os, 'd' defpath
     let fs : Launch.FS Nat Unit Nat := {
-      join := fun d _ => if hd == "1" then 1 else d   -- os.path.join(dir, absolute) = absolute
+      join := fun d _ => if hd == "1" then 1 else d   -- os.path.join(dir, absolute) = absolute; join(dir, "./name") names dir's own entry
       asPath := fun _ => 1
-      hasDirname := fun _ => hd == "1"
+      hasDirname := fun _ => hd == "1" || hd == "2"
       isExec := fun p =>
         if p == 1 then ee == "1"
         else if 100 ≤ p && p < 200 then envDirs.getD (p - 100) false
